@@ -56,6 +56,15 @@ func NewStdinWithContext(ctx context.Context, forceClose context.CancelFunc) (st
 	return
 }
 
+// SetMaxBufferSize overrides the back-pressure limit of this stream; zero
+// means the buffer can grow without limit. Needed when the stream is filled
+// completely before anyone reads it.
+func (stdin *Stdin) SetMaxBufferSize(max int) {
+	stdin.mutex.Lock()
+	stdin.max = max
+	stdin.mutex.Unlock()
+}
+
 func (stdin *Stdin) File() *os.File {
 	return nil
 }
